@@ -251,6 +251,9 @@ func (ts *TermStore) Eq(a, b *Term) *Term {
 		return ts.Bool(a.cu == b.cu)
 	}
 	if a.sort.k == sFP64 || a.sort.k == sFP32 {
+		if a == b {
+			return ts.Not(ts.mk("fp.isNaN", boolSort, a))
+		}
 		return ts.mk("fp.eq", boolSort, a, b)
 	}
 	// byte-sized ite over constants compared with a constant is common; leave to solver
@@ -424,7 +427,7 @@ func (ts *TermStore) Resize(a *Term, w int, signed bool) *Term {
 		if (a.op == "zext" || a.op == "sext") && a.args[0].sort.w >= w {
 			return ts.Resize(a.args[0], w, false)
 		}
-		return ts.mk(fmt.Sprintf("(_ extract %d 0)", w-1), bvSort(w), a)
+		return ts.Extract(a, w-1, 0)
 	}
 	if signed {
 		t := ts.mk(fmt.Sprintf("(_ sign_extend %d)", w-aw), bvSort(w), a)
@@ -440,13 +443,40 @@ func (ts *TermStore) Extract(a *Term, hi, lo int) *Term {
 	if lo == 0 && hi == a.sort.w-1 {
 		return a
 	}
+	if x, _, l0, ok := extractParts(a); ok {
+		return ts.Extract(x, hi+l0, lo+l0)
+	}
+	if a.op == "concat" {
+		lw := a.args[1].sort.w
+		if hi < lw {
+			return ts.Extract(a.args[1], hi, lo)
+		}
+		if lo >= lw {
+			return ts.Extract(a.args[0], hi-lw, lo-lw)
+		}
+	}
 	return ts.mk(fmt.Sprintf("(_ extract %d %d)", hi, lo), bvSort(hi-lo+1), a)
+}
+
+func extractParts(t *Term) (x *Term, hi, lo int, ok bool) {
+	if len(t.args) == 1 && len(t.op) > 11 && t.op[:11] == "(_ extract " {
+		var h, l int
+		if n, _ := fmt.Sscanf(t.op, "(_ extract %d %d)", &h, &l); n == 2 {
+			return t.args[0], h, l, true
+		}
+	}
+	return nil, 0, 0, false
 }
 
 func (ts *TermStore) Concat(hi, lo *Term) *Term {
 	w := hi.sort.w + lo.sort.w
 	if hi.isC && lo.isC && w <= 64 {
 		return ts.BV(hi.cu<<uint(lo.sort.w)|lo.cu, w)
+	}
+	if x1, h1, l1, ok1 := extractParts(hi); ok1 {
+		if x2, h2, l2, ok2 := extractParts(lo); ok2 && x1 == x2 && l1 == h2+1 {
+			return ts.Extract(x1, h1, l2)
+		}
 	}
 	return ts.mk("concat", bvSort(w), hi, lo)
 }
